@@ -120,7 +120,8 @@ class Builder:
 
     def wind(self, i):
         def make(s):
-            return lib.pb.Wind(self.q(s.get("velocity")), self.q(s.get("direction")), self.q(s.get("until")))
+            kw = {"max_distance_feet": s["max_distance_feet"]} if s.get("max_distance_feet") is not None else {}
+            return lib.pb.Wind(self.q(s.get("velocity")), self.q(s.get("direction")), self.q(s.get("until")), **kw)
         return self._get("winds", i, make)
 
     def windlist(self, i):
